@@ -848,7 +848,10 @@ func replaceRange(line *spanLine, x int, n int, insert Span, mode TextReadMode) 
 		pos = endPos
 	}
 
-	// Clamp to total width (tracked by pos after the scan).
+	// Clamp to total width: the scan above stops at the end span, so add what follows it.
+	for j := i + 1; j < len(spans); j++ {
+		pos += spans[j].Width
+	}
 	totalWidth := pos
 	if x > totalWidth {
 		x = totalWidth
@@ -861,7 +864,10 @@ func replaceRange(line *spanLine, x int, n int, insert Span, mode TextReadMode) 
 		}
 	}
 	if x == 0 && n >= totalWidth {
-		line.spans = append(line.spans[:0], insert)
+		line.spans = line.spans[:0]
+		if insert.Width > 0 {
+			line.spans = append(line.spans, insert)
+		}
 		line.width = insert.Width
 		return
 	}
@@ -878,7 +884,7 @@ func replaceRange(line *spanLine, x int, n int, insert Span, mode TextReadMode) 
 	// Fast paths for in-place replacements inside a single span.
 	if startIdx == endIdx {
 		sp := spans[startIdx]
-		if startOffset == 0 && endOffset == sp.Width {
+		if startOffset == 0 && endOffset == sp.Width && insert.Width > 0 {
 			spans[startIdx] = insert
 			line.width = totalWidth - n + insert.Width
 			return
@@ -965,8 +971,6 @@ func replaceRange(line *spanLine, x int, n int, insert Span, mode TextReadMode) 
 	if suffixStart < len(spans) {
 		newLen += len(spans) - suffixStart
 	}
-	newWidth := totalWidth - n + insert.Width
-
 	// Ensure capacity then populate the new span layout.
 	if cap(spans) < newLen {
 		newSpans := make([]Span, newLen)
@@ -986,7 +990,7 @@ func replaceRange(line *spanLine, x int, n int, insert Span, mode TextReadMode) 
 		}
 		copy(newSpans[dest:], spans[suffixStart:])
 		line.spans = newSpans
-		line.width = newWidth
+		line.width = spansWidth(newSpans)
 		return
 	}
 
@@ -1016,7 +1020,15 @@ func replaceRange(line *spanLine, x int, n int, insert Span, mode TextReadMode) 
 	if suffixLen > 0 && destAfter <= suffixStart {
 		copy(line.spans[destAfter:], spans[suffixStart:])
 	}
-	line.width = newWidth
+	line.width = spansWidth(line.spans)
+}
+
+func spansWidth(spans []Span) int {
+	width := 0
+	for _, sp := range spans {
+		width += sp.Width
+	}
+	return width
 }
 
 func insertSpan(line *spanLine, x int, insert Span, mode TextReadMode) {
